@@ -22,6 +22,23 @@ PROPS = {
         "assumptions": ["alpha: only absence of exceptions on all paths is proved for all inputs; its value is checked against the window-mean definition on concrete replays only (bounded)",
                         "float32 casts of the returned values are identities"],
     },
+    "C04": {
+        "level": "other",
+        "engines": [
+            {"kind": "cvc", "select": [("ptnghb", ".*"), ("partinit", ".*"), ("partition", "inv_.*|post|bounds|lemma|pre")]},
+            {"kind": "bounded_c", "which": "c04"},
+        ],
+        "explanation": "PROVED for all nk, nth >= 1 (VCs from clang's AST of specpart.c, z3): the 8-neighbour table built by ptnghb "
+        "equals, as a set, the circular-in-direction neighbourhood of every bin (both inclusions), with symmetry and "
+        "shift-equivariance as corollaries; the level discretisation lands in [0, ihmax-1]. BOUNDED (not proved): the whole-watershed "
+        "postcondition (every bin labelled, one partition per regional maximum of the discretised field, each partition connected on the "
+        "circular grid, shift equivariance) is an executable contract evaluated on the C code compiled from the current tree for every grid "
+        "with nk*nth <= 6 (quick) / 9 (thorough) over a 3-value alphabet and ihmax in {1,2,3,100}, plus seeded random grids in thorough.",
+        "trusted_base": ["clang's parse of specpart.c", "engine/cvc symbolic executor and its loop-cutting", "independent Python oracle bounded/specpart/oracle.py"],
+        "assumptions": ["whole-algorithm correctness of the immersion (pt_fld) is NOT proved; only bounded",
+                        "spectra whose range max-min is below 1e-9 are treated as constant by the C code (advisory finding of the bounded harness)"],
+        "technique": "contract-based deductive verification of ptnghb/partition from clang's AST + bounded exhaustive run-time contract of the whole watershed",
+    },
 }
 
 _PENDING = "not yet brought under contract in the current build round (see DESIGN.md section 8 for the order of work)"
